@@ -129,7 +129,7 @@ Theorem registry_register w key isrel zs :
   | _ => False
   end.
 Proof.
-  intros [Hnd Hlen]. cbn [step].
+  intros [Hnd Hlen]. cbn [step step0].
   pose proof (find_index_spec (fun c => ci_key c =? key) (w_reg w)) as Hf.
   destruct (find_index (fun c => ci_key c =? key) (w_reg w)) as [id|] eqn:Hfi.
   - unfold register_comp. rewrite Hfi. destruct Hf as (c & Hc & Hk & _). apply Nat.eqb_eq in Hk. simpl.
